@@ -63,6 +63,44 @@ def tags : List (String × Nat) := [("SuitEnvelopeTagged", 107), ("CoseSign1Tagg
 def hashLengths : List (String × Nat) :=
   [("cose-alg-sha-256", 32), ("cose-alg-shake128", 16), ("cose-alg-sha-384", 48), ("cose-alg-sha-512", 64), ("cose-alg-shake256", 32)]
 
+/-- where the CDDL prescribes `bstr .cbor` (true) and where the value is embedded directly (false):
+(class defining the member, member name, wrapped?) -/
+def wrapTable : List (String × String × Bool) := [
+  ("SuitEnvelope", "suit-manifest", true), ("SuitEnvelope", "suit-authentication-wrapper", true),
+  ("SuitEnvelope", "suit-dependency-resolution", true), ("SuitEnvelope", "suit-payload-fetch", true),
+  ("SuitEnvelope", "suit-candidate-verification", true), ("SuitEnvelope", "suit-install", true),
+  ("SuitEnvelope", "suit-install-legacy", true), ("SuitEnvelope", "suit-text", true),
+  ("SuitManifest", "suit-manifest-version", false), ("SuitManifest", "suit-manifest-sequence-number", false),
+  ("SuitManifest", "suit-common", true), ("SuitManifest", "suit-reference-uri", false),
+  ("SuitManifest", "suit-manifest-component-id", false), ("SuitManifest", "suit-current-version", true),
+  ("SuitManifest", "suit-validate", true), ("SuitManifest", "suit-load", true), ("SuitManifest", "suit-invoke", true),
+  ("SuitManifest", "suit_uninstall", true),
+  ("SuitCommon", "suit-dependencies", false), ("SuitCommon", "suit-components", false), ("SuitCommon", "suit-shared-sequence", true),
+  ("SuitParameters", "suit-parameter-vendor-identifier", false), ("SuitParameters", "suit-parameter-class-identifier", false),
+  ("SuitParameters", "suit-parameter-image-digest", true), ("SuitParameters", "suit-parameter-component-slot", false),
+  ("SuitParameters", "suit-parameter-strict-order", false), ("SuitParameters", "suit-parameter-soft-failure", false),
+  ("SuitParameters", "suit-parameter-image-size", false), ("SuitParameters", "suit-parameter-uri", false),
+  ("SuitParameters", "suit-parameter-source-component", false), ("SuitParameters", "suit-parameter-invoke-args", true),
+  ("SuitParameters", "suit-parameter-device-identifier", false), ("SuitParameters", "suit-parameter-version", true),
+  ("SuitDirective", "suit-directive-run-sequence", true), ("SuitDirective", "suit-directive-set-parameters", false),
+  ("SuitDirective", "suit-directive-override-parameters", false), ("SuitDirective", "suit-directive-fetch", false),
+  ("SuitDirective", "suit-directive-try-each", false),
+  ("SuitHeaderMap", "suit-cose-algorithm-id", false), ("SuitHeaderMap", "suit-cose-iv", false)
+]
+
+/-- tuple fields that are `bstr .cbor` (class, field, wrapped?) -/
+def wrapTupleTable : List (String × String × Bool) := [
+  ("SuitAuthentication", "SuitDigest", true),
+  ("CoseSign1", "protected", true), ("CoseSign1", "unprotected", false), ("CoseSign1", "signature", false),
+  ("CoseEncrypt", "protected", true), ("CoseEncrypt", "unprotected", false), ("CoseEncrypt", "recipients", false),
+  ("CoseRecipient", "protected", true), ("CoseRecipient", "unprotected", false),
+  ("CoseSigStructure", "body_protected", true), ("CoseSigStructure", "payload", true), ("CoseEncStructure", "protected", true),
+  ("SuitDigestRaw", "suit-digest-algorithm-id", false), ("SuitDigestRaw", "suit-digest-bytes", false)
+]
+
+/-- command sequences are flat (code, argument) pairs: the list class groups its elements by two -/
+def groupedLists : List (String × Nat) := [("SuitCommandSequence", 2)]
+
 end SuitVerif.Registry
 
 namespace SuitVerif
@@ -84,6 +122,31 @@ def Schema.tagOf (s : Schema) (clsName : String) : Option Nat :=
 /-- lookup by name (`from_obj`) and by code (`from_cbor`) in a key space -/
 def encodeKey (es : List (String × Int)) (name : String) : Option Int := (es.find? (fun e => e.1 == name)).map (·.2)
 def decodeKey (es : List (String × Int)) (code : Int) : Option String := (es.find? (fun e => e.2 == code)).map (·.1)
+
+def Schema.isCbstr (s : Schema) (c : Cls) : Bool :=
+  match s.ty c with | some (.cbstr _) => true | _ => false
+
+/-- is member `entry` of the first key-value class named `clsName` a `cbstr` class? -/
+def Schema.memberWrapped (s : Schema) (clsName entry : String) : Option Bool :=
+  s.classes.findSome? (fun c =>
+    if c.1 == clsName then
+      match c.2 with
+      | .keyValue es _ => (es.find? (fun e => e.name == entry)).map (fun e => s.isCbstr e.cls)
+      | .keyValueTuple es => (es.find? (fun e => e.name == entry)).map (fun e => s.isCbstr e.cls)
+      | _ => none
+    else none)
+
+def Schema.fieldWrapped (s : Schema) (clsName field : String) : Option Bool :=
+  s.classes.findSome? (fun c =>
+    if c.1 == clsName then
+      match c.2 with
+      | .tupleNamed es => (es.find? (fun e => e.1 == field)).map (fun e => s.isCbstr e.2)
+      | _ => none
+    else none)
+
+def Schema.groupOf (s : Schema) (clsName : String) : Option Nat :=
+  s.classes.findSome? (fun c =>
+    if c.1 == clsName then (match c.2 with | .list _ g => g | _ => none) else none)
 
 def nodupB {α} [BEq α] : List α → Bool
   | [] => true
